@@ -346,6 +346,24 @@ impl Rasn {
                     )
                 }
             }
+            // The governing type is a reference to the ENUMERATED type: a delegate type
+            // that wraps the enumeral
+            ASN1Value::EnumeratedValue { enumerated, .. }
+                if matches!(ty, ASN1Type::ElsewhereDeclaredType(_))
+                    && ty.as_str() != enumerated.as_str() =>
+            {
+                call_template!(
+                    self,
+                    primitive_value_template,
+                    tld,
+                    self.to_rust_title_case(&ty.as_str()),
+                    assignment!(
+                        self,
+                        &ty.as_str(),
+                        self.value_to_tokens(&tld.value, None)?
+                    )
+                )
+            }
             ASN1Value::EnumeratedValue {
                 enumerated,
                 enumerable,
